@@ -51,6 +51,9 @@ def main(argv=None):
     seed = vc.seed_from_env()
     env = dict(os.environ)
     env["PYTHONPATH"] = str(vc.ROOT)
+    if os.environ.get("VERIF_REPO"):
+        # testing aid (seeded changes in a scratch worktree): both tiers use that tree instead of /repo
+        env["PYTHONPATH"] = f"{os.environ['VERIF_REPO']}/src:{vc.ROOT}"
     env["PYTHONDONTWRITEBYTECODE"] = "1"
     env["PYTHONHASHSEED"] = "0"
     env.setdefault("VERIF_SEED", str(seed))
@@ -247,7 +250,8 @@ def run_check(pid, a, seed, env, tmpd, t0):
         "crashes": crashes,
         "exit": exitcode,
     }
-    vc.jdump(ev, vc.EVIDENCE_DIR / f"{pid}.json")
+    ev_dir = vc.EVIDENCE_DIR if not os.environ.get("VERIF_REPO") else vc.REPLAY_DIR / "_scratch_evidence"
+    vc.jdump(ev, ev_dir / f"{pid}.json")
 
     for ln in lines:
         print(ln)
